@@ -82,7 +82,7 @@ BASELINE = os.path.join(XLATE, "baseline")          # committed model of the pin
 LEAN_MAIN = LEAN
 LEAN_BASE = os.path.join(ROOT, "lean-baseline")     # a second lake workspace whose Gen/ is the committed model
 # which properties' models contain generated parts, per translation group
-GROUP_PROPS = {"syntax": {"C01", "C02", "C03", "C04", "C10", "C20"}, "rename": {"C08"}, "choreo": {"C12", "C16"}}
+GROUP_PROPS = {"syntax": {"C01", "C02", "C03", "C04", "C10", "C20"}, "rename": {"C08"}, "choreo": {"C12", "C16"}, "highlight": {"C19"}}
 
 
 def groups_of(prop):
